@@ -44,7 +44,7 @@ def run(spec, pid, tier, seed, replay=None):
             notes.append(out[-500:])
         checker_cmd += " && lake env leanchecker " + spec["theorems"]
 
-    tally = core.Tally(pid, known)
+    tally = core.Tally(pid, known, spec.get("only_oracles"))
     if replay:
         req, resp = core.pipeline(pid + ".replay", [core.TGH, "replay"], stdin_path=replay)
         tally.consume("replay", req, resp)
@@ -68,7 +68,7 @@ def run(spec, pid, tier, seed, replay=None):
         os.makedirs(core.WORK, exist_ok=True)
         with open(wpath, "w") as fh:
             fh.write(json.dumps(k["witness"]) + "\n")
-        t2 = core.Tally(pid, [])
+        t2 = core.Tally(pid, [], spec.get("only_oracles"))
         req, resp = core.pipeline("%s.%s.w" % (pid, k["id"]), [core.TGH, "replay"], stdin_path=wpath)
         t2.consume("w", req, resp)
         tally.evaluations += t2.evaluations
@@ -99,7 +99,7 @@ def run(spec, pid, tier, seed, replay=None):
         # the tie (or a proof obligation) is broken: search wider for a failing input
         found = None
         for extra in range(1, 3 if tier == "quick" else 5):
-            t3 = core.Tally(pid, known)
+            t3 = core.Tally(pid, known, spec.get("only_oracles"))
             for g in spec["groups"]:
                 req, resp = core.pipeline("%s.%s.s%d" % (pid, g, extra),
                                           [core.TGH, g, "--tier", tier,
